@@ -572,11 +572,14 @@ fn build_sched(threads: usize) -> Result<String, String> {
     Ok(format!("{}/release/c15sched", target))
 }
 
-fn run_sched(bin: &str, mode: &str, hid: Hid, w: &str, h: &str, seed: &str, msg: &str, schedule: Option<&str>) -> Result<(Value, String), String> {
+fn run_sched(bin: &str, mode: &str, hid: Hid, w: &str, h: &str, seed: &str, msg: &str, schedule: Option<&str>, collide: bool) -> Result<(Value, String), String> {
     let mut cmd = Command::new(bin);
     cmd.args([mode, hid.name(), w, h, seed, msg]);
     if let Some(s) = schedule {
         cmd.arg(s);
+    }
+    if collide {
+        cmd.arg("collide");
     }
     let out = cmd.env("RUST_MIN_STACK", "67108864").output().map_err(|e| e.to_string())?;
     let stderr = String::from_utf8_lossy(&out.stderr).to_string();
@@ -590,12 +593,12 @@ fn factorial(n: usize) -> u64 {
 }
 
 /// schedule exploration of one configuration; returns (schedules, violations)
-fn sched_case(threads: usize, hid: Hid, w: &str, h: &str, seed: &str, msg: &str) -> Result<(u64, u64, Vec<(Viol, Value)>), String> {
+fn sched_case(threads: usize, hid: Hid, w: &str, h: &str, seed: &str, msg: &str, collide: bool) -> Result<(u64, u64, Vec<(Viol, Value)>), String> {
     let bin = build_sched(threads)?;
-    let (r, stderr) = run_sched(&bin, "explore", hid, w, h, seed, msg, None)?;
+    let (r, stderr) = run_sched(&bin, "explore", hid, w, h, seed, msg, None, collide)?;
     let mut v = vec![];
     let schedule = stderr.split("schedule: \"").nth(1).and_then(|s| s.split('"').next()).map(|s| s.to_string());
-    let case = |sch: &Option<String>| json!({"engine":"c15sched","threads":threads,"hid":hid,"w":w,"h":h,"seed":seed,"msg":msg,"schedule":sch});
+    let case = |sch: &Option<String>| json!({"engine":"c15sched","threads":threads,"hid":hid,"w":w,"h":h,"seed":seed,"msg":msg,"schedule":sch,"collide":collide});
     let nk = format!("n={}", hid.n());
     if let Some(f) = r["oracle_failure"].as_str() {
         v.push((Viol::new(format!("C15:schedule:oracle:{}", nk), format!("under some schedule of {} worker threads: {}", threads, f)), case(&schedule)));
@@ -626,7 +629,7 @@ pub fn c15_replay(case: &Value) -> Result<Vec<Viol>, String> {
             match case["schedule"].as_str() {
                 Some(sch) => {
                     let bin = build_sched(threads)?;
-                    let (r, _) = run_sched(&bin, "replay", hid, w, h, seed, msg, Some(sch))?;
+                    let (r, _) = run_sched(&bin, "replay", hid, w, h, seed, msg, Some(sch), case["collide"].as_bool().unwrap_or(false))?;
                     if r["identical"].as_bool() != Some(true) {
                         return Err("replaying the recorded schedule twice gave different observations".into());
                     }
@@ -638,7 +641,7 @@ pub fn c15_replay(case: &Value) -> Result<Vec<Viol>, String> {
                     }
                     Ok(v)
                 }
-                None => Ok(sched_case(threads, hid, w, h, seed, msg)?.2.into_iter().map(|x| x.0).collect()),
+                None => Ok(sched_case(threads, hid, w, h, seed, msg, case["collide"].as_bool().unwrap_or(false))?.2.into_iter().map(|x| x.0).collect()),
             }
         }
         _ => {
@@ -730,7 +733,13 @@ pub fn run_c15(ctx: &Ctx) -> (&'static str, Map<String, Value>) {
                     let seed = hex::encode(det_bytes(ctx.seed, &format!("c15s:{}", hid.name()), n));
                     let mut msg = det_bytes(ctx.seed, "c15smsg", 21);
                     msg.extend(std::iter::repeat(0u8).take(n));
-                    sched_case(*t, *hid, w, h, &seed, &hex::encode(msg))
+                    // two environment answers of the random generator: distinct draws, colliding draws
+                    let a = sched_case(*t, *hid, w, h, &seed, &hex::encode(&msg), false);
+                    let b = sched_case(*t, *hid, w, h, &seed, &hex::encode(&msg), true);
+                    match (a, b) {
+                        (Ok(x), Ok(y)) => Ok((x.0 + y.0, x.1.max(y.1), x.2.into_iter().chain(y.2).collect())),
+                        (Err(e), _) | (_, Err(e)) => Err(e),
+                    }
                 })
                 .collect();
             (*t, rs)
